@@ -283,6 +283,7 @@ def st_fwrite(I, p, size, n, f):
 def st_fread(I, p, size, n, f):
     h = _h(I, f)
     size = _len(I, size, 'fread size'); n = _len(I, n, 'fread n')
+    if size == 0 or n == 0: return 0
     node = h['node']
     ln = node.length
     if not isinstance(ln, int):
